@@ -91,20 +91,8 @@ def minimize_history(ctx, exec_factory, violation, budget_s=40.0):
             return False
         return False
 
-    changed = True
-    while changed and time.time() - t0 < budget_s:
-        changed = False
-        # try dropping chunks, large to small, from the front (the last op is the failing one)
-        size = max(1, (len(ops) - 1) // 2)
-        while size >= 1 and time.time() - t0 < budget_s:
-            i = 0
-            while i + size <= len(ops) - 1 and time.time() - t0 < budget_s:
-                cand = ops[:i] + ops[i + size:]
-                if fails(cand):
-                    ops = cand
-                    changed = True
-                else:
-                    i += size
-            size //= 2
+    from vf.shrink import ddmin_list
+
+    ops = ddmin_list(ops, fails, budget_s, keep_last=True)
     violation.case = {**violation.case, "ops": ops}
     return violation
